@@ -8,7 +8,7 @@
 (* every assignment of dimensions to the roles.                            *)
 (***************************************************************************)
 EXTENDS Integers, Sequences, FiniteSets, TLC, Json
-CONSTANTS Part, Schemes, Emit
+CONSTANTS Part, Schemes, Emit, Deep        \* Deep (thorough tier): every non-empty subset of the flow templates, also with negative flows
 
 MCCanon == <<"t", "r", "e">>
 MCItemsOf == [t |-> <<1, 2>>, r |-> <<1, 2, 3>>, e |-> <<1, 2>>]
@@ -33,7 +33,7 @@ MkSys(fl, k, st) ==
     [procs |-> <<"sysenv", "use phase", "B">>, flows |-> fl, ffrom |-> TFrom, fto |-> TTo, fdims |-> FlowDimsOf(k), fcoef |-> TCoef,
      fname |-> TName, stocks |-> st, sproc |-> <<2, 0>>, sdims |-> StockDimsOf(k), sname |-> <<"in use (A)", "landfill - old">>,
      sin |-> <<2, 1>>, sout |-> <<1, 3>>, slevel |-> <<5, 2>>, g |-> GenG]
-Systems == {MkSys(fl, k, st) : fl \in {F \in SUBSET AllF : Cardinality(F) \in {2, 3, 5}}, k \in Schemes, st \in {{}, {1}, {1, 2}}}
+BaseSystems == {MkSys(fl, k, st) : fl \in {F \in SUBSET AllF : Cardinality(F) \in (IF Deep THEN 1..5 ELSE {2, 3, 5})}, k \in Schemes, st \in {{}, {1}, {1, 2}}}
 
 \* ---- sankey settings
 Slices == {<<>>} \cup {[l \in {"t"} |-> 2], [l \in {"r"} |-> 3], [l \in {"t", "e"} |-> IF l = "t" THEN 1 ELSE 2]}
@@ -46,6 +46,7 @@ Doubled(S) == [S EXCEPT !.fcoef = [i \in 1..5 |-> 2 * S.fcoef[i]]]
 \* all values of the system doubled in place (flows and stocks): a second export into the SAME directory replaces the first
 DoubledAll(S) == [Doubled(S) EXCEPT !.sin = [i \in 1..2 |-> 2 * S.sin[i]], !.sout = [i \in 1..2 |-> 2 * S.sout[i]],
                                     !.slevel = [i \in 1..2 |-> 2 * S.slevel[i]]]
+Systems == BaseSystems \cup (IF Deep THEN {Negated(T) : T \in BaseSystems} ELSE {})
 SankeySystems == {T \in Systems : T.stocks = {}} \cup {Negated(T) : T \in {U \in Systems : U.stocks = {} /\ Cardinality(U.flows) = 2}}
 SankeyConfigs ==
     UNION {UNION {{[op |-> "sankey", sys |-> S, slice |-> sl, exclp |-> ep, exclf |-> ef, split |-> sp] :
@@ -76,7 +77,8 @@ SysJson(S) == [procs |-> S.procs,
                             cin |-> S.sin[s], cout |-> S.sout[s], level |-> S.slevel[s]] : s \in S.stocks},
                g |-> {<<LabTuple(lab), S.g[lab]>> : lab \in DOMAIN S.g}]
 FnJson(f) == {<<k, f[k]>> : k \in DOMAIN f}
-LineVal(ds, lab) == 1 + 10 * (IF "t" \in DOMAIN lab THEN lab["t"] ELSE 0) + 3 * (IF "r" \in DOMAIN lab THEN lab["r"] ELSE 0) + 100 * (IF "e" \in DOMAIN lab THEN lab["e"] ELSE 0)
+\* (the slice of item 2 of r is entirely ZERO: a subplot / line without any non-zero entry is a subplot / line like any other)
+LineVal(ds, lab) == IF "r" \in DOMAIN lab /\ lab["r"] = 2 THEN 0 ELSE 1 + 10 * (IF "t" \in DOMAIN lab THEN lab["t"] ELSE 0) + 3 * (IF "r" \in DOMAIN lab THEN lab["r"] ELSE 0) + 100 * (IF "e" \in DOMAIN lab THEN lab["e"] ELSE 0)
 EmitInv == Emit =>
     PrintT(<<"VEC", ToJson(
         CASE cfg.op = "export" ->
